@@ -12,21 +12,22 @@ use crate::gen;
 use crate::rec::Rec;
 use crate::world::*;
 
-const DENOMS: [&str; 3] = ["uwhale", "uusdc", "uatom"];
+/// the pool under test: Full's all-native trio, or (odd runs) a second trio whose third asset is a cw20 token
+struct Tp { trio: cosmwasm_std::Addr, lp: cosmwasm_std::Addr, assets: [A; 3] }
 pub const MIN_RAMP_BLOCKS: u64 = 10_000;
 
-fn obs(f: &Full) -> Value {
-    let c: ConfigResponse = f.w.query(&f.trio, &QueryMsg::Config {}).unwrap();
-    let p: PoolResponse = f.w.query(&f.trio, &QueryMsg::Pool {}).unwrap();
-    let fees: ProtocolFeesResponse = f.w.query(&f.trio, &QueryMsg::ProtocolFees { asset_id: None, all_time: Some(false) }).unwrap();
+fn obs(f: &Full, tp: &Tp) -> Value {
+    let c: ConfigResponse = f.w.query(&tp.trio, &QueryMsg::Config {}).unwrap();
+    let p: PoolResponse = f.w.query(&tp.trio, &QueryMsg::Pool {}).unwrap();
+    let fees: ProtocolFeesResponse = f.w.query(&tp.trio, &QueryMsg::ProtocolFees { asset_id: None, all_time: Some(false) }).unwrap();
     let by = |v: &Vec<white_whale_std::pool_network::asset::Asset>| -> Vec<u128> {
-        DENOMS.iter().map(|d| v.iter().find(|a| a.info == A::Native(d.to_string()).info()).map(|a| a.amount.u128()).unwrap_or(0)).collect()
+        tp.assets.iter().map(|d| v.iter().find(|a| a.info == d.info()).map(|a| a.amount.u128()).unwrap_or(0)).collect()
     };
-    let bal: Vec<u128> = DENOMS.iter().map(|d| f.w.balance(&f.trio, &A::Native(d.to_string()))).collect();
-    let all: ProtocolFeesResponse = f.w.query(&f.trio, &QueryMsg::ProtocolFees { asset_id: None, all_time: Some(true) }).unwrap();
-    let burned: ProtocolFeesResponse = f.w.query(&f.trio, &QueryMsg::BurnedFees { asset_id: None }).unwrap();
-    let col: Vec<u128> = DENOMS.iter().map(|d| f.w.balance(&f.hub.collector, &A::Native(d.to_string()))).collect();
-    let circ: Vec<u128> = DENOMS.iter().map(|d| f.w.supply(&A::Native(d.to_string()))).collect();
+    let bal: Vec<u128> = tp.assets.iter().map(|d| f.w.balance(&tp.trio, d)).collect();
+    let all: ProtocolFeesResponse = f.w.query(&tp.trio, &QueryMsg::ProtocolFees { asset_id: None, all_time: Some(true) }).unwrap();
+    let burned: ProtocolFeesResponse = f.w.query(&tp.trio, &QueryMsg::BurnedFees { asset_id: None }).unwrap();
+    let col: Vec<u128> = tp.assets.iter().map(|d| f.w.balance(&f.hub.collector, d)).collect();
+    let circ: Vec<u128> = tp.assets.iter().map(|d| f.w.supply(d)).collect();
     json!({"feeAll": sv(&by(&all.fees)), "burned": sv(&by(&burned.fees)), "col": sv(&col), "circ": sv(&circ),"init": c.initial_amp.to_string(), "future": c.future_amp.to_string(), "start": c.initial_amp_block.to_string(),
         "stop": c.future_amp_block.to_string(), "height": f.w.app.block_info().height.to_string(),
         "res": sv(&by(&p.assets)), "S": s(p.total_share.u128()), "fee": sv(&by(&fees.fees)), "bal": sv(&bal)})
@@ -36,18 +37,28 @@ pub fn run_random(rec: &mut Rec, seed: u64, run: u64, nops: usize) {
     let mut r = gen::rng(seed, run ^ 0x5452_494f);
     let mut f = Full::new(true);
     let owner = f.owner.clone();
+    let tp = if run % 2 == 0 {
+        Tp { trio: f.trio.clone(), lp: f.trio_lp.clone(), assets: [f.whale.clone(), f.usdc.clone(), f.atom.clone()] }
+    } else {
+        let assets = [f.whale.clone(), f.usdc.clone(), f.tka.clone()];
+        let (trio, lp) = f.w.create_trio(&f.hub.pool_factory.clone(), [&assets[0], &assets[1], &assets[2]], trio_fee(ONE / 1000, ONE / 500, 0), 100, "trio2").unwrap();
+        let lpu = f.lp_user.clone();
+        let rs = f.w.provide_trio(&lpu, &trio, [&assets[0], &assets[1], &assets[2]], [1_000_000_000, 1_000_000_000, 1_000_000_000]);
+        assert!(rs.is_ok(), "{}", rs.err());
+        Tp { trio, lp, assets }
+    };
     // per-run fee triple (protocol, swap, burn), set by the owner through the factory
     let fee_choices: [u128; 6] = [0, ONE / 1000, ONE / 500, ONE / 100, ONE / 10, 1];
     let fees: [u128; 3] = [*gen::pick(&mut r, &fee_choices), *gen::pick(&mut r, &fee_choices), *gen::pick(&mut r, &fee_choices)];
     let rs0 = f.w.exec(&owner, &f.hub.pool_factory.clone(), &white_whale_std::pool_network::factory::ExecuteMsg::UpdateTrioConfig {
-        trio_addr: f.trio.to_string(), owner: None, fee_collector_addr: None, pool_fees: Some(trio_fee(fees[0], fees[1], fees[2])), feature_toggle: None, amp_factor: None }, &[]);
+        trio_addr: tp.trio.to_string(), owner: None, fee_collector_addr: None, pool_fees: Some(trio_fee(fees[0], fees[1], fees[2])), feature_toggle: None, amp_factor: None }, &[]);
     assert!(rs0.is_ok(), "trio fee update: {:?}", rs0.err());
     rec.emit(json!({"ev": "reset", "suite": "trio", "run": run, "seed": seed.to_string(), "ops": nops,
-        "cfg": {"fees": {"p": s(fees[0]), "s": s(fees[1]), "b": s(fees[2])}}, "obs": obs(&f)}));
+        "cfg": {"fees": {"p": s(fees[0]), "s": s(fees[1]), "b": s(fees[2])}}, "obs": obs(&f, &tp)}));
     let user = f.user.clone();
     let lp_user = f.lp_user.clone();
     for step in 0..nops {
-        let o = obs(&f);
+        let o = obs(&f, &tp);
         let height: u64 = o["height"].as_str().unwrap().parse().unwrap();
         // current amp as the contract would compute it
         let (init, fut, start, stop): (u64, u64, u64, u64) = (o["init"].as_str().unwrap().parse().unwrap(), o["future"].as_str().unwrap().parse().unwrap(),
@@ -73,7 +84,7 @@ pub fn run_random(rec: &mut Rec, seed: u64, run: u64, nops: usize) {
                 let sender = if by_owner { owner.clone() } else { user.clone() };
                 dpre = f.w.digest();
                 rs = f.w.exec(&sender, &f.hub.pool_factory.clone(), &white_whale_std::pool_network::factory::ExecuteMsg::UpdateTrioConfig {
-                    trio_addr: f.trio.to_string(), owner: None, fee_collector_addr: None, pool_fees: None, feature_toggle: None,
+                    trio_addr: tp.trio.to_string(), owner: None, fee_collector_addr: None, pool_fees: None, feature_toggle: None,
                     amp_factor: Some(RampAmp { future_a: fa, future_block: fb }) }, &[]);
                 dpost = f.w.digest();
                 name = "ramp"; actor = if by_owner { "owner" } else { "user1" };
@@ -98,12 +109,15 @@ pub fn run_random(rec: &mut Rec, seed: u64, run: u64, nops: usize) {
                     match std::panic::catch_unwind(std::panic::AssertUnwindSafe(|| c.swap_to(Uint128::new(offer), Uint128::new(rv(i)), Uint128::new(rv(j)), Uint128::new(rv(k))))) {
                         Ok(Some(x)) => s(x.amount_swapped.u128()), _ => json!("none") }
                 };
-                let sim = match f.w.query::<SimulationResponse, _>(&f.trio, &QueryMsg::Simulation { offer_asset: A::Native(DENOMS[i].into()).asset(offer), ask_asset: A::Native(DENOMS[j].into()).asset(0) }) {
+                let sim = match f.w.query::<SimulationResponse, _>(&tp.trio, &QueryMsg::Simulation { offer_asset: tp.assets[i].asset(offer), ask_asset: tp.assets[j].asset(0) }) {
                     Ok(x) => json!({"res": "ok", "ret": s(x.return_amount.u128()), "sf": s(x.swap_fee_amount.u128()), "pf": s(x.protocol_fee_amount.u128()), "bf": s(x.burn_fee_amount.u128()), "spread": s(x.spread_amount.u128())}),
                     Err(_) => json!({"res": "rejected", "ret": "0", "sf": "0", "pf": "0", "bf": "0", "spread": "0"}) };
                 dpre = f.w.digest();
-                rs = f.w.exec(&user, &f.trio.clone(), &ExecuteMsg::Swap { offer_asset: A::Native(DENOMS[i].into()).asset(offer), ask_asset: A::Native(DENOMS[j].into()).info(),
-                    belief_price: None, max_spread: Some(dec("0.5")), to: None }, &[coin(offer, DENOMS[i])]);
+                rs = match &tp.assets[i] {
+                    A::Native(dn) => f.w.exec(&user, &tp.trio.clone(), &ExecuteMsg::Swap { offer_asset: tp.assets[i].asset(offer), ask_asset: tp.assets[j].info(),
+                        belief_price: None, max_spread: Some(dec("0.5")), to: None }, &[coin(offer, dn.as_str())]),
+                    A::Cw20(t) => f.w.cw20_send(&user, &t.clone(), &tp.trio.clone(), offer, &Cw20HookMsg::Swap { ask_asset: tp.assets[j].info(), belief_price: None, max_spread: Some(dec("0.5")), to: None }),
+                };
                 dpost = f.w.digest();
                 name = "swap"; actor = "user1";
                 let g = |k: &str| rs.attr("swap", k).unwrap_or("0".into());
@@ -112,13 +126,13 @@ pub fn run_random(rec: &mut Rec, seed: u64, run: u64, nops: usize) {
             }
             85..=87 => {
                 dpre = f.w.digest();
-                rs = f.w.exec(&user, &f.trio.clone(), &ExecuteMsg::CollectProtocolFees {}, &[]);
+                rs = f.w.exec(&user, &tp.trio.clone(), &ExecuteMsg::CollectProtocolFees {}, &[]);
                 dpost = f.w.digest();
                 name = "collect"; actor = "user1"; args = json!({});
             }
             88..=93 => {
                 let d: Vec<u128> = (0..3).map(|i| { let rv: u128 = o["res"][i].as_str().unwrap().parse().unwrap(); match r.gen_range(0..3) { 0 => rv / 10 + 1, _ => gen::log_uniform(&mut r, 1, rv.max(2)) } }).collect();
-                let (a0, a1, a2) = (A::Native(DENOMS[0].into()), A::Native(DENOMS[1].into()), A::Native(DENOMS[2].into()));
+                let (a0, a1, a2) = (tp.assets[0].clone(), tp.assets[1].clone(), tp.assets[2].clone());
                 let rv = |x: usize| -> u128 { o["res"][x].as_str().unwrap().parse().unwrap() };
                 let sup: u128 = o["S"].as_str().unwrap().parse().unwrap();
                 let curve = {
@@ -130,17 +144,17 @@ pub fn run_random(rec: &mut Rec, seed: u64, run: u64, nops: usize) {
                 dpre = f.w.digest();
                 // slippage tolerance: none, 0, 1 %, 50 %, 1, just above 1
                 let slip: Option<u128> = match r.gen_range(0..8) { 0 => Some(0), 1 => Some(ONE / 100), 2 => Some(ONE / 2), 3 => Some(ONE), 4 => Some(ONE + 1), 5 => Some(ONE / 1000), _ => None };
-                rs = f.w.provide_trio_slip(&user, &f.trio.clone(), [&a0, &a1, &a2], [d[0], d[1], d[2]], slip);
+                rs = f.w.provide_trio_slip(&user, &tp.trio.clone(), [&a0, &a1, &a2], [d[0], d[1], d[2]], slip);
                 dpost = f.w.digest();
                 name = "provide"; actor = "user1";
                 args = json!({"d": sv(&d), "amp": cur.to_string(), "curve": curve, "slip": slip.map(s).unwrap_or(json!("none")), "minted": rs.attr("provide_liquidity", "share").unwrap_or("0".into())});
             }
             _ => {
-                let lpa = A::Cw20(f.trio_lp.clone());
+                let lpa = A::Cw20(tp.lp.clone());
                 let have = f.w.balance(&lp_user, &lpa);
                 let amt = gen::log_uniform(&mut r, 1, (have / 20).max(2));
                 dpre = f.w.digest();
-                rs = f.w.cw20_send(&lp_user, &f.trio_lp.clone(), &f.trio.clone(), amt, &Cw20HookMsg::WithdrawLiquidity {});
+                rs = f.w.cw20_send(&lp_user, &tp.lp.clone(), &tp.trio.clone(), amt, &Cw20HookMsg::WithdrawLiquidity {});
                 dpost = f.w.digest();
                 name = "withdraw"; actor = "lpuser"; args = json!({"amt": s(amt), "amp": cur.to_string()});
             }
@@ -152,7 +166,7 @@ pub fn run_random(rec: &mut Rec, seed: u64, run: u64, nops: usize) {
         ev.insert("err".into(), jerr(&rs.err()));
         ev.insert("dpre".into(), json!(dpre));
         ev.insert("dpost".into(), json!(dpost));
-        ev.insert("obs".into(), obs(&f));
+        ev.insert("obs".into(), obs(&f, &tp));
         rec.emit(Value::Object(ev));
     }
     let _ = Uint128::zero();
